@@ -3,6 +3,7 @@ package wl
 import (
 	"context"
 	"fmt"
+	"sync"
 
 	"github.com/cybergarage/go-tracing/tracer"
 	"github.com/cybergarage/go-tracing/tracer/common"
@@ -19,6 +20,7 @@ type SpanEvent struct {
 // RecTracer is a tracer.Tracer double: it records span start/finish events and
 // builds contexts with the library's real span stack (common.NewSpanContextWith).
 type RecTracer struct {
+	mu      sync.Mutex // a tracer is shared by all connection goroutines
 	Events  []SpanEvent
 	Spans   []*RecSpan
 	OnEvent func(ev SpanEvent)
@@ -44,10 +46,12 @@ func (t *RecTracer) Start() error          { return nil }
 func (t *RecTracer) Stop() error           { return nil }
 
 func (t *RecTracer) newSpan(name string, parent int) *RecSpan {
+	t.mu.Lock()
 	s := &RecSpan{T: t, ID: len(t.Spans), Parent: parent, Name: name, Open: true}
 	t.Spans = append(t.Spans, s)
 	ev := SpanEvent{Start: true, ID: s.ID, Parent: parent, Name: name}
 	t.Events = append(t.Events, ev)
+	t.mu.Unlock()
 	if t.OnEvent != nil {
 		t.OnEvent(ev)
 	}
@@ -62,10 +66,12 @@ func (t *RecTracer) StartSpan(name string) tracer.Context {
 func (s *RecSpan) SetTag(string, any) {}
 
 func (s *RecSpan) Finish() {
+	s.T.mu.Lock()
 	s.Finishes++
 	s.Open = false
 	ev := SpanEvent{Start: false, ID: s.ID, Parent: s.Parent, Name: s.Name}
 	s.T.Events = append(s.T.Events, ev)
+	s.T.mu.Unlock()
 	if s.T.OnEvent != nil {
 		s.T.OnEvent(ev)
 	}
